@@ -543,7 +543,7 @@ class Program:
         r = rng.random()
         if r < 0.25:
             # edit the hook list
-            kind = rng.choice(['none', 'value', 'raise', 'clear', 'registry', 'mutating'])
+            kind = rng.choice(['none', 'value', 'raise', 'clear', 'registry', 'mutating', 'shrinking'])
             if kind == 'clear':
                 zi.adapter_hooks[:] = []
             elif kind == 'none':
@@ -561,6 +561,12 @@ class Program:
                         zi.adapter_hooks.append(lambda i2, ob2: None)
                     return None
                 zi.adapter_hooks.insert(0, mut)
+            elif kind == 'shrinking':
+                def shr(i, ob):
+                    # unregisters the hooks after the first three while the list is being walked
+                    del zi.adapter_hooks[3:]
+                    return None
+                zi.adapter_hooks.insert(0, shr)
             self.trace.append('hooks %s -> %d' % (kind, len(zi.adapter_hooks)))
             return
         if r < 0.6:
@@ -816,6 +822,17 @@ class Program:
         else:
             self.emit('verifyClass(%s,%s)' % (R(I), R(c)), lambda: verifyClass(I, c))
 
+    def final_known(self):
+        """Last step of every program (so that nothing after it is lost to the comparison): an interface that overrides
+        ``providedBy`` through ``interfacemethod``.  Known divergence, see known_findings.json."""
+        zi.adapter_hooks[:] = []
+
+        def providedBy(self_, ob):
+            return getattr(ob, 'zname', '') == 'o0'
+        ICp = InterfaceClass('ICp', (Interface,), {INTERFACE_METHODS: {'providedBy': providedBy}}, __module__=self.mod)
+        o0 = self.objs[0]
+        self.emit('ICp(o0, alt) [custom providedBy]', lambda: ICp(o0, 'ALT') is o0)
+
     def finish(self):
         zi.adapter_hooks[:] = self.saved_hooks
 
@@ -828,6 +845,7 @@ def run_case(ctx, rng, job):
         nsteps = job.get('steps', 300)
         for _ in range(nsteps):
             p.step()
+        p.final_known()
     finally:
         p.finish()
     ctx.ev(len(p.trace))
